@@ -38,6 +38,7 @@ class _Shim(object):
     def __init__(self, f, body):
         self.module = f.module
         self.qualname = f.qualname
+        self.cls = getattr(f, "cls", None)
         self.node = ast.FunctionDef(name=f.name, args=f.node.args, body=body, decorator_list=[])
 
 
